@@ -72,12 +72,47 @@ def _imul_inv(L):
     V = bits(self)
     old = L.entry.get('__old')
     if old is None:                      # entry check: the store still holds the old content, m == 1
-        return land(sym.eq(m, 1), sym.eq(V.n, old_len))
+        return land(sym.eq(m, 1), sym.eq(V.n, old_len), old_len > 0)
     ob = old.bit
 
     def body(i):
         if sym.truth(lnot(land(i >= 0, i < V.n))):
             return True
-        q, r = sym.floordiv_mod(i, old_len)
+        q, r = sym.div_shift(i, old_len, m)       # also tells the solver divmod(i + m*old_len, old_len) == (q + m, r)
         return sym.iff(V.bit(i), ob(r))
-    return land(m >= 1, sym.eq(V.n, m * old_len), sym.eq(old.n, old_len), old_len > 0, L.forall(body))
+    n = L.v('n')
+    return land(m >= 1, lor(sym.eq(m, 1), m < n), sym.eq(V.n, m * old_len), sym.eq(old.n, old_len), old_len > 0, L.forall(body))
+
+
+def _mul_shapes(states):
+    out = []
+    for cls, st in states:
+        def build(S, interp, cls=cls, st=st):
+            return [m_bits(S, interp, 'self', cls, st), S.int('n')], {}
+
+        def real(vals, cls=cls, st=st):
+            return [r_bits(vals, 'self', cls, st), vals['n']], {}
+        out.append(Shape(f'{cls}/{st}', build, real))
+    return out
+
+
+def mul_spec(C, self, n):
+    if sym.truth(n < 0):
+        C.throw('ValueError')
+    V = bits(self)
+    if sym.truth(lor(sym.eq(n, 0), sym.eq(V.n, 0))):
+        return mk_bits(C, self.cls, BA(0, lambda i: False), pos=0)
+    return mk_bits(C, self.cls, rep(V, n), pos=0)
+
+
+contract('bits.Bits.__mul__', shapes=_mul_shapes(SELF_STATES), props={'C01', 'C08'}, kind='public',
+         note="s * n: n copies of the bits of s in a new object of type(s); ValueError for n < 0; s unchanged")(mul_spec)
+contract('bits.Bits.__rmul__', shapes=_mul_shapes(SELF_STATES_MEM), props={'C01'}, kind='public', note="n * s == s * n")(mul_spec)
+
+
+@contract('bitarray_.BitArray.__imul__', shapes=_mul_shapes(MUT_STATES), props={'C01', 'C03', 'C06'}, kind='public',
+          note="s *= n: in place, returns s; ValueError (s unchanged) for n < 0")
+def imul_public_spec(C, self, n):
+    if sym.truth(n < 0):
+        C.throw('ValueError')
+    return imul_spec(C, self, n)
